@@ -125,8 +125,8 @@ fn counted_eq_three(swapped: bool) {
     kani::assert((l == r) == !swapped, "C10:counted_set_equality_is_multiset_equality");
     core::mem::forget(l); core::mem::forget(r);
 }
-#[kani::proof] #[kani::unwind(8)] pub(crate) fn slow_counted_set_eq_multiplicities_differ() { counted_eq_three(true) }
-#[kani::proof] #[kani::unwind(8)] pub(crate) fn slow_counted_set_eq_multiplicities_same() { counted_eq_three(false) }
+#[kani::proof] #[kani::unwind(8)] pub(crate) fn counted_set_contract_eq_multiplicities_differ() { counted_eq_three(true) }
+#[kani::proof] #[kani::unwind(8)] pub(crate) fn counted_set_contract_eq_multiplicities_same() { counted_eq_three(false) }
 
 /// extend from ANY iterator == repeated insert, whatever `size_hint` said (it only feeds `reserve`)
 #[kani::proof] #[kani::unwind(6)]
